@@ -67,7 +67,7 @@ def run(prop, tier, seed, ctx):
     for tid, pos, mask in rej:
         t = sect[tid - 1]
         ev = t["events"][pos - 1]
-        for bit, name in ((4, "LineIs"), (32, "TracebackLineIs")):
+        for bit, name in ((4, "LineIs"), (32, "TracebackLineIs"), (64, "QuotedLineIs")):
             if int(mask) & bit:
                 ctx.violation("C17|verify-in-section|%s" % name, "verify() inside a section of %r: the parser says line %s (+ offset %d), the feedback says %s, its traceback frame %s" % (
                     t["texts"][0][:80], ev["line"], ev["offset"], ev["fbline"], ev.get("tbline")), {"texts": t["texts"], "events": t["events"]})
